@@ -1,6 +1,7 @@
 package main
 
 import (
+	"go/token"
 	"fmt"
 	"strings"
 
@@ -208,6 +209,9 @@ func ruleC05(w *World, r *Report) {
 
 	ruleC05UP4(w, r)
 	ruleC05Alias(w, r)
+	// the delete addresses exactly the entries the add installed (same expansion of the same ranges)
+	portRuleConsumers(w, r, "R05.2", w.Fn(P, "pfcpiface.CreatePortRangeCartesianProduct"))
+	ruleC05Gauge(w, r)
 	markBothLists(w, r, "R05.4")
 }
 
@@ -430,4 +434,57 @@ func isFreshSlice0(v ssa.Value, seen map[ssa.Value]bool) bool {
 		return true
 	}
 	return false
+}
+
+
+// ruleC05Gauge: the sessions gauge takes its unit back when a session ends. SaveSessions decides
+// "new" vs "ended" by Duration == 0, so Delete must record the un-rounded lifetime.
+func ruleC05Gauge(w *World, r *Report) {
+	const P = "C05"
+	del := w.Fn(P, "pfcpiface/metrics.(*Session).Delete")
+	n := 0
+	allInstrs(del, func(i ssa.Instruction) {
+		st, ok := i.(*ssa.Store)
+		if !ok {
+			return
+		}
+		fa, ok := st.Addr.(*ssa.FieldAddr)
+		if !ok || fieldVar(fa) == nil || fieldVar(fa).Name() != "Duration" {
+			return
+		}
+		n++
+		s := symOf(st.Val).String()
+		r.check(s == "(time.Duration).Seconds(time.Since(Session.CreatedAt))", "R05.5", w.FuncName(del), "an ended session carries its exact lifetime (the gauge tells ended from new by Duration != 0)", w.Pos(st.Pos()), s, "Delete records "+s+": a rounded or truncated lifetime is 0 for a short-lived session (every rejected establishment, an immediate detach), which SaveSessions counts as a NEW session — the gauge goes up instead of down")
+	})
+	r.floor("R05.5 Duration stores in Session.Delete", n, 1)
+	save := w.Fn(P, "pfcpiface/metrics.(*Service).SaveSessions")
+	// decision: Duration == 0 → Inc only; otherwise Dec (and Observe)
+	incs, decs := 0, 0
+	allInstrs(save, func(i ssa.Instruction) {
+		c, ok := i.(*ssa.Call)
+		if !ok || !c.Call.IsInvoke() {
+			return
+		}
+		zeroEdge := func(want bool) bool {
+			return onlyVia(save, c, func(a, b *ssa.BasicBlock) bool {
+				x, op, y, ok := edgeFact(a, b)
+				if !ok || !strings.HasSuffix(symOf(x).String(), "Session.Duration") {
+					return false
+				}
+				if cst, isC := y.(*ssa.Const); !isC || cst.Value == nil || cst.Value.ExactString() != "0" {
+					return false
+				}
+				return (op == token.EQL) == want
+			})
+		}
+		switch c.Call.Method.Name() {
+		case "Inc":
+			incs++
+			r.check(zeroEdge(true), "R05.5", w.FuncName(save), "the gauge grows only for a new session (Duration == 0)", w.Pos(c.Pos()), "under Duration == 0", "Inc is reachable for an ended session")
+		case "Dec":
+			decs++
+			r.check(zeroEdge(false), "R05.5", w.FuncName(save), "the gauge shrinks for an ended session (Duration != 0)", w.Pos(c.Pos()), "under Duration != 0", "Dec is not what runs for an ended session")
+		}
+	})
+	r.check(incs == 1 && decs == 1, "R05.5", w.FuncName(save), "one Inc and one Dec", w.Pos(save.Pos()), "1/1", fmt.Sprintf("%d Inc / %d Dec", incs, decs))
 }
